@@ -730,6 +730,20 @@ theorem sysInv_init (A : Arith) (p : Params) (s0 : State) (clock : Rat) (h : s0.
   crit := trivial
   pend := by intro x hx; cases hx
 
+/-- the same for a configuration in which nobody holds the mutex and nothing is logged yet, with callers already
+    waiting (what a `Resize`, which holds the mutex itself, leaves behind) -/
+theorem sysInv_start (A : Arith) (p : Params) (c : Sys) (hc : c.crit = none) (hl : c.log = [])
+    (h : c.lim.last ≤ c.clock) (hp : ∀ x ∈ c.pending, x.2 ≤ c.clock) :
+    SysInv A p c.lim c [] where
+  lim := rfl
+  sorted := trivial
+  le_clock := by intro x hx; cases hx
+  base := h
+  evs := by unfold sysEvs; rw [hc, hl]; rfl
+  log := by intro d hd; rw [hl] at hd; cases hd
+  crit := by rw [hc]; trivial
+  pend := hp
+
 theorem lookup_mem : ∀ (l : List (Nat × Rat)) (i : Nat) (st : Rat), l.lookup i = some st → (i, st) ∈ l
   | [], _, _, h => by simp [List.lookup] at h
   | (j, v) :: l, i, st, h => by
